@@ -53,62 +53,70 @@ def _short(q):
     return q.split(".")[-1]
 
 
-def _reader_call(fn, nargs):
-    """the call through a local that holds the selected reader: the only call of a plain local name with `nargs` positional arguments"""
-    hits = [n for n in ast.walk(fn) if isinstance(n, ast.Call) and isinstance(n.func, ast.Name) and len(n.args) == nargs and not n.keywords]
-    return hits[0] if len(hits) == 1 else None
+SKIPPERS = frozenset({"self._skipop4_ascii", "self._skipop4_binary"})      # compared with the readers, not followed inside the loaders
 
 
-def _nparams(fn):
-    return len(fn.args.args) - 1
+def _phi_paths(v, path=()):
+    """the leaves of a tree of selections: value -> [(path [(condition, taken)], leaf value)]"""
+    p = C.fn_parts(v) if _rat(v) else None
+    if p is not None and p[0] == "phi" and len(path) < 12:
+        return _phi_paths(p[1][1], path + ((p[1][0], True),)) + _phi_paths(p[1][2], path + ((p[1][0], False),))
+    return [(path, v)]
 
 
-def _loader_with(ctx, loader, reader):
-    """walk a loader with the call of the selected reader bound to `reader`: the reader's statements are evaluated on the loader's values"""
-    lf = ctx.src.func(OP4, "OP4." + loader)
-    rf = ctx.src.func(OP4, "OP4." + reader)
-    call = _reader_call(lf, _nparams(rf))
-    if call is None:
-        ctx.error(f"{loader}: call of the selected reader", lf)
-        return None, None
-    w = _w4(ctx, loader, tag=reader, indirect={id(call): rf}, no_inline={"self._skipop4_ascii", "self._skipop4_binary"})
-    return w, call
+def _path_oracle(path):
+    """case oracle of a walk: the tests of one selection path are decided as that path takes them"""
+    def force(cv):
+        for c, take in path:
+            if C.same(cv, c, whole_values=False):
+                return take
+        return None
+    return force
 
 
-# the order in which the loaders pass their values to a reader / skipper (roles by position; a parameter that still carries the role's
-# name is found by name, so re-ordering *or* renaming parameters is harmless)
-ROLES = {
-    "ascii": ("wper", "r", "c", "rows", "cols", "line", "numlen", "perline", "linelen", "funcs"),
-    "binary": ("fp", "wper", "r", "c", "rows", "cols", "nwords", "reclen", "bytesreal", "numform", "numform2", "funcs"),
-    "skip_ascii": ("perline", "rows", "cols", "mtype"),
-    "skip_binary": ("cols",),
-}
+def _readers(ctx, loader):
+    """the readers a loader selects between, found at its call through the selected function:
+    [{name, fn, paths: [selection path, ...], w: the loader walked with that reader, layout}]"""
+    cache = ctx.__dict__.setdefault("_c11_readers", {})
+    if loader in cache:
+        return cache[loader]
+    out = cache[loader] = []
+    w0 = _w4(ctx, loader, tag="discover", no_inline=SKIPPERS)
+    if w0 is None:
+        return out
+    disp = [e for e in w0.events if e[0] == "dispatch"]
+    if len(disp) != 1:
+        ctx.error(f"{loader}: call of the selected reader", w0.fn, {"calls through a selected function": len(disp)})
+        return out
+    for path, leaf in _phi_paths(disp[0][1]):
+        nm = C.sym_name(leaf) or ""
+        short = nm.split(".")[-1]
+        if not ctx.src.has_func(OP4, "OP4." + short):
+            ctx.error(f"{loader}: selected reader", disp[0][2], repr(leaf))
+            continue
+        fn = ctx.src.func(OP4, "OP4." + short)
+        old = [r for r in out if r["fn"] is fn]
+        if old:
+            old[0]["paths"].append(path)
+            continue
+        w = _w4(ctx, loader, tag="reader:" + short, force=_path_oracle(path), no_inline=SKIPPERS)
+        if w is None:
+            continue
+        out.append({"name": short, "fn": fn, "paths": [path], "w": w, "layout": _layout(w, fn), "select": disp[0][1]})
+    return out
 
 
-def _role(values, fn, kind, role):
-    """value bound to the parameter of `fn` that plays `role`: values = {parameter name: value}"""
-    params = [a.arg for a in fn.args.args]
-    if params and params[0] in ("self", "cls"):
-        params = params[1:]
-    if role in params:
-        return values.get(role)
-    ref = ROLES[kind]
-    if len(params) == len(ref) and not (set(params) & (set(ref) - {p for p in params})):
-        return values.get(params[ref.index(role)])
-    i = ref.index(role)
-    return values.get(params[i]) if i < len(params) and params[i] not in ref else None
-
-
-def _role_name(fn, kind, role):
-    """current name of the parameter of `fn` that plays `role`"""
-    params = [a.arg for a in fn.args.args]
-    if params and params[0] in ("self", "cls"):
-        params = params[1:]
-    if role in params:
-        return role
-    ref = ROLES[kind]
-    i = ref.index(role)
-    return params[i] if i < len(params) and params[i] not in ref else None
+def _layout(w, rf):
+    """dense / bigmat / nonbigmat, read off the loops the reader runs: no string loop, a string loop on a header pair, a string loop on a
+    packed header word"""
+    cols = C.loops_of_call(w, rf)
+    if len(cols) != 1:
+        return "?"
+    inner = C.loops_in(cols[0].items, deep=False)
+    if not inner:
+        return "dense"
+    _p, dec = _counter(inner[0])
+    return "nonbigmat" if _rat(dec) and _words_in([dec]) else "bigmat"
 
 
 def _skip_args(w, skf, name="self._skipop4_ascii"):
@@ -123,6 +131,114 @@ def _skip_args(w, skf, name="self._skipop4_ascii"):
         if set(a) != set(first) or not all(C.same(a[k], first[k], whole_values=False) for k in a):
             return None
     return first
+
+
+# ---- calls through the (allocate, store, finish) functions a reader is handed
+def _class_function_leaves(w, v):
+    """the functions of the class a callee value selects between, [] if it is anything else"""
+    out = []
+    for _path, leaf in _phi_paths(v):
+        n = C.sym_name(leaf) if _rat(leaf) else None
+        f = w.table.get(n) if n is not None else None
+        if f is None:
+            return []
+        if not any(f is x for x in out):
+            out.append(f)
+    return out
+
+
+def _handed_calls(w):
+    """calls through a local that holds a function of the class the callee was handed (not followed: they do not read the file)"""
+    return [e for e in w.events if e[0] == "call" and e[6] is not None and _rat(e[6]) and _class_function_leaves(w, e[6])]
+
+
+def _mentions(v, x):
+    a = C.as_atom(x) if _rat(x) else None
+    return a is not None and _rat(v) and (C.as_atom(v) == a or any(d == a for d in C.walk_atoms(v)))
+
+
+def _matrix_calls(w):
+    """(allocation, [stores], finish): the call whose result is the matrix under construction, the calls it is handed to inside loops,
+    the call it is handed to at the end"""
+    hc = _handed_calls(w)
+    for ini in hc:
+        X = ini[8]
+        if not _rat(X) or C.as_atom(X) is None:
+            continue
+        users = [e for e in hc if e is not ini and any(_mentions(a, X) for a in e[2])]
+        if users:
+            stores = [e for e in users if not e[7].equals(w.top.id)]
+            fins = [e for e in users if e[7].equals(w.top.id)]
+            return ini, stores, (fins[-1] if fins else None)
+    return None, [], None
+
+
+def _store_roles(ctx, w, callee):
+    """what a store function does with its arguments, read off the simplest variant: X[row + k, col] = text[k * width : (k + 1) * width]
+    for k < count   /   X[row : row + len(values), col] = values.   -> {role: parameter name}, parameter names"""
+    cache = ctx.__dict__.setdefault("_c11_roles", {})
+    fns = _class_function_leaves(w, callee)
+    key = tuple(sorted(f.name for f in fns))
+    if key in cache:
+        return cache[key]
+    sigs = {tuple(a.arg for a in f.args.args) for f in fns}
+    res = (None, None)
+    if len(sigs) == 1:
+        params = list(next(iter(sigs)))
+        psyms = {p_: F.sym(p_) for p_ in params}
+
+        def only_param(v):
+            hit = [p_ for p_ in params if _rat(v) and _mentions(v, psyms[p_])]
+            return hit[0] if len(hit) == 1 else None
+        for f in sorted(fns, key=lambda f: len(ast.dump(f))):
+            try:
+                sw = C.Walker(ctx, OP4, "OP4", f, follow=False, files=()).run_function()
+            except (Stuck, Unsupported):
+                continue
+            roles = {}
+            for nm, ix, val, _st in sw.all_cells:
+                if nm not in params or not _rat(ix):
+                    continue
+                p = C.fn_parts(ix)
+                if p is None or p[0] != "tuple" or len(p[1]) != 2:
+                    continue
+                r0, c0 = p[1]
+                sl = C._slice_parts(r0)
+                if sl is not None:
+                    r0 = sl[0]
+                if only_param(r0) is None or only_param(c0) is None:
+                    continue
+                roles = {"matrix": nm, "row": only_param(r0), "col": only_param(c0)}
+                # the count: the trip count of the loop whose running index is added to the row
+                for fid, n in sw.for_trips:
+                    if _rat(r0) and any(d[0] == "fn" and d[1] == "item" and C._arg(d[2][0]).equals(fid) for d in C.walk_atoms(r0)) and only_param(n):
+                        roles["count"] = only_param(n)
+                pv = C.fn_parts(val) if _rat(val) else None
+                if pv is not None and pv[0] == "idx" and _rat(pv[1][0]) and only_param(pv[1][0]) and C._slice_parts(pv[1][1]) is not None:
+                    lo, up, _stp = C._slice_parts(pv[1][1])
+                    roles["text"] = only_param(pv[1][0])
+                    if lo is not None and up is not None and only_param(up - lo):
+                        roles["width"] = only_param(up - lo)
+                elif _rat(val) and only_param(val):
+                    roles["values"] = only_param(val)
+                break
+            if roles:
+                res = (roles, params)
+                break
+        if res[0] is None:
+            # no variant could be read: the parameters keep the roles their names announce
+            named = {"matrix": "X", "row": "r", "col": "c", "count": "L", "text": "s", "width": "numlen", "values": "Y"}
+            res = ({k: v for k, v in named.items() if v in params}, params)
+    cache[key] = res
+    return res
+
+
+def _store_arg(ctx, w, e, role):
+    """the value a store call passes in a role"""
+    roles, params = _store_roles(ctx, w, e[6])
+    if roles is None or role not in roles:
+        return None
+    return place(e[2], e[3], params).get(roles[role])
 
 
 def _lv_in(v, frame):
@@ -186,7 +302,7 @@ def _leaf_label(path):
     return "not (" + T.show_cond(path[-1][0]) + ")"
 
 
-def _check_site(ctx, q, c, tbs, extra=None, site_label="", mtype=None):
+def _check_site(ctx, q, c, tbs, extra=None, site_label="", mtype=None, label=None):
     """one struct/fromfile cut-over site: same count, same bytes, same type on both routes, for every format binding and key width"""
     nm = _short(q)
     node = c["node"]
@@ -230,7 +346,7 @@ def _check_site(ctx, q, c, tbs, extra=None, site_label="", mtype=None):
                                        "witness": "a string of 3000 or more values is decoded by np.fromfile, a shorter one by struct.unpack: with different "
                                                   "item sizes the long string is garbage and the reader leaves the record boundary; with different kinds "
                                                   "(signed/unsigned) a word >= 2^63 decodes differently on the two routes"},
-                      key=f"C11-R1|{q}|{key}|{bits}|{ftxt.replace(T.ENDIAN, '')}|{dtxt.replace(T.ENDIAN, '')}")
+                      key=f"C11-R1|{label or q}|{key}|{bits}|{ftxt.replace(T.ENDIAN, '')}|{dtxt.replace(T.ENDIAN, '')}")
             if rest and rest[0] is not None:
                 # words per value (op4): a value occupies wper words of the key width
                 wper = T.numval(C.norm(rest[0]), tb)
@@ -263,27 +379,38 @@ def _check_site(ctx, q, c, tbs, extra=None, site_label="", mtype=None):
     ctx.check(ok, f"{nm}{site_label}: the switch compares the number of values with a setting (the tunable cut-off), nothing else", node, nontrivial=False)
 
 
+def _divisor(count):
+    """count = words // d  ->  d: the words one value occupies, as the reader applies it to what the header announces"""
+    p = C.fn_parts(count) if _rat(count) else None
+    if p is not None and p[0] == "floordiv" and len(p[1]) == 2 and _rat(p[1][1]):
+        return p[1][1]
+    return None
+
+
+def _reported_type(w):
+    """the matrix type a loader reports: last element of the (name, matrix, form, type) it returns for a matrix it read"""
+    full = [r for r in w.returns if isinstance(r[0], tuple) and len(r[0]) == 4 and not all(_rat(x) and C.sym_name(x) == "None" for x in r[0])]
+    return full[-1][0][3] if full else None
+
+
 def r1_cutover_pairs(ctx):
     tbs = T.tables(ctx)
-    # ---- op4: the three binary readers, evaluated on the values `_loadop4_binary` passes them
+    # ---- op4: the binary readers the loader selects between, evaluated on the values `_loadop4_binary` hands them
     n4 = 0
-    for reader in ("_rd_dense_binary", "_rd_bigmat_binary", "_rd_nonbigmat_binary"):
-        rf = ctx.src.func(OP4, "OP4." + reader)
-        w, call = _loader_with(ctx, "_loadop4_binary", reader)
-        if w is None:
-            continue
+    for rd in _readers(ctx, "_loadop4_binary"):
+        rf, w = rd["fn"], rd["w"]
         cols = C.loops_of_call(w, rf)
         sites = [c for c in w.cutovers if any(_is_sub_frame(c["frame"], lp.frame) for lp in cols)]
         if len(sites) != 1:
-            ctx.error(f"{reader}: cut-over site", rf, len(sites))
+            ctx.error(f"{rd['name']}: cut-over site", rf, len(sites))
             continue
         n4 += 1
-        # words per value: what the loader passed to the reader in that role
-        bound = w.bound.get(id(rf))
-        wv = _role(bound, rf, "binary", "wper") if bound is not None else None
-        full = [r for r in w.returns if isinstance(r[0], tuple) and len(r[0]) == 4 and not all(_rat(x) and C.sym_name(x) == "None" for x in r[0])]
-        mtype = full[-1][0][3] if full else None
-        _check_site(ctx, "OP4." + reader, sites[0], tbs["op4"], extra=[wv], mtype=mtype if _rat(mtype) else F.sym("?"))
+        # words per value: the divisor that turns the words the header announces into the number of values decoded
+        wv = _divisor(sites[0]["count_ff"])
+        if wv is None:
+            ctx.error(f"{rd['name']}: the number of values decoded is not (words announced) // (words per value)", sites[0]["node"], repr(sites[0]["count_ff"]))
+        mtype = _reported_type(w)
+        _check_site(ctx, "OP4." + rd["name"], sites[0], tbs["op4"], extra=[wv], mtype=mtype if _rat(mtype) else F.sym("?"), label=f"op4 binary {rd['layout']}")
     # ---- op2
     n2 = 0
     for name in ("rdop2matrix", "rdop2record", "rdop2dynamics"):
@@ -302,12 +429,20 @@ def r1_cutover_pairs(ctx):
 
 
 # ------------------------------------------------------------------------------------------------------------------ R2
+def _bytes_of(data):
+    """the number of bytes of the value handed to a struct decode: what one read (or a slice of one read) delivered"""
+    p = C.fn_parts(data) if _rat(data) else None
+    if p is not None and p[0] == "rd" and len(p[1]) == 3 and _rat(p[1][2]):
+        return p[1][2]
+    return None
+
+
 def r2_declared_sizes(ctx):
     tbs = T.tables(ctx)
     fn4, fn2 = tbs["fn"]["op4"], tbs["fn"]["op2"]
-    # ---- every struct decode of a file read reads exactly the size of its format (both key widths)
+    # ---- every struct decode of bytes read from the file decodes exactly the size of its format (both key widths)
     seen = set()
-    nsites = 0
+    nsites = nevents = 0
     jobs = [("op2", _w2, n) for n in ("_getkey", "rdop2eot", "rdop2nt", "rdop2matrix", "skipop2matrix", "rdop2record", "skipop2record",
                                       "rdop2tabheaders", "rdop2dynamics")]
     jobs += [("op4", _w4, n) for n in ("_skipop4_binary",)]
@@ -316,25 +451,26 @@ def r2_declared_sizes(ctx):
         w = wf(ctx, n)
         if w is not None:
             walks.append((what, n, w))
-    for reader in ("_rd_dense_binary", "_rd_bigmat_binary", "_rd_nonbigmat_binary"):
-        w, _call = _loader_with(ctx, "_loadop4_binary", reader)
-        if w is not None:
-            walks.append(("op4", "_loadop4_binary/" + reader, w))
+    for rd in _readers(ctx, "_loadop4_binary"):
+        walks.append(("op4", "_loadop4_binary/" + rd["name"], rd["w"]))
     for what, n, w in walks:
-        reads = {repr(e[1]): e for e in w.events if e[0] == "read"}
         for e in w.events:
-            if e[0] != "unpack" or id(e[3]) in seen:
+            if e[0] != "unpack":
                 continue
-            rd = reads.get(repr(e[2]))
-            if rd is None:
+            nbytes = _bytes_of(e[2])
+            if nbytes is None:
                 continue
-            seen.add(id(e[3]))
+            nevents += 1
+            k = (n.split("/")[0], repr(e[2]), repr(e[1]))        # one obligation per decode on a walked path, wherever its statement lives
+            if k in seen:
+                continue
+            seen.add(k)
             fmtv, cnt = e[1], None
             p = C.fn_parts(fmtv) if _rat(fmtv) else None
             if p is not None and p[0] in ("fmt", "mod") and len(p[1]) == 2:
                 fmtv, cnt = p[1]
             try:
-                lvs = C.leaves([fmtv, rd[2]] + ([cnt] if cnt is not None else []))
+                lvs = C.leaves([fmtv, nbytes] + ([cnt] if cnt is not None else []))
             except Unsupported as ex:
                 ctx.error(f"{n}: struct format selections", e[3], str(ex))
                 continue
@@ -372,7 +508,7 @@ def r2_declared_sizes(ctx):
             nsites += 1
             ctx.check(ok, f"{n.split('/')[-1]}: the bytes read for a struct decode equal the size of its format, with 32- and 64-bit keys, and the "
                           "decoded items are used within their number", e[3], bad)
-    ctx.check(nsites >= 14, f"decode-size rule bound to {nsites} struct decodes", fn2, nontrivial=False)
+    ctx.check(nsites >= 40, f"decode-size rule bound to {nsites} struct decodes on the walked paths", fn2, nontrivial=False)
     # ---- declared attributes (the state named by the property's anchors)
     for bits, label, word in ((64, "64-bit", 8), (32, "32-bit", 4)):
         tb = tbs["op4"][bits]
@@ -694,16 +830,46 @@ def _until_exit(items):
 def r4_read_equals_skip(ctx):
     """a reader and its skipper advance the file by the same bytes / lines, loop on the same decoded words and stop at the same place"""
     # ---- keys
-    gk, skp = _w2(ctx, "_getkey"), _w2(ctx, "_skipkey")
+    gk = _w2(ctx, "_getkey")
     if gk is not None:
         tot = C.total(_strip_exit(gk.top.items), "B")
         ok = tot is not None and C.same(tot, KEY)
         ctx.check(ok, "_getkey: a key is 4 + ibytes + 4 bytes", gk.fn, None if ok else C.show(gk.top.items))
-    if skp is not None and gk is not None:
-        tot = C.total(_strip_exit(skp.top.items), "B")
-        n = F.sym(skp.fn.args.args[1].arg) if len(skp.fn.args.args) > 1 else None
-        ok = tot is not None and n is not None and C.same(tot, n * KEY)
-        ctx.check(ok, "_skipkey(n): n keys of 8 + ibytes bytes, what n calls of _getkey consume", skp.fn, None if ok else C.show(skp.top.items))
+    # between the records of a data block header only whole keys are skipped: whatever rdop2nt consumes beyond its three records
+    # [4][payload][4] (name, trailer, name) is a whole number of the triplets _getkey reads, in both key widths
+    nt = _w2(ctx, "rdop2nt")
+    if nt is not None and gk is not None:
+        tail = [it for it in C.tidy(nt.top.items)]
+        # the path that reads a data block: the arm of the end-of-file test that consumes
+        path = []
+        for it in tail:
+            if it[0] == "if":
+                arms = [a for a in (it[2], it[3]) if C.total(_until_exit(a), "B") is not None and not C.norm(C.total(_until_exit(a), "B")).is_zero()]
+                path += list(arms[0]) if len(arms) == 1 else [it]
+            else:
+                path.append(it)
+        tot = C.total(_until_exit(path), "B")
+        ok, detail = tot is not None, None
+        if ok:
+            rest = C.norm(tot, whole_values=False)
+            # payloads: the decoded lengths / counts the records announce
+            var = F.const(0)
+            for m, c in rest.n.t.items():
+                if m and not (len(m) == 1 and C.sym_name(F.Rat(F.Poly.atom(m[0][0]))) == "self._ibytes"):
+                    var = var + F.Rat(F.Poly({m: c}))
+            fixed = rest - var
+            # fixed = 8 * records + k * (8 + ibytes)
+            ib_mono = ((F._intern(("s", "self._ibytes")), 1),)
+            k = None
+            if fixed.d.is_const():
+                coef = {m: c / fixed.d.const_value() for m, c in fixed.n.t.items()}
+                kk, c0 = coef.get(ib_mono, 0), coef.get((), 0)
+                if set(coef) <= {(), ib_mono} and kk.denominator == 1 and c0.denominator == 1 and (c0 - 8 * kk) % 8 == 0 and c0 - 8 * kk >= 0:
+                    k = (int(kk), int((c0 - 8 * kk) // 8))
+            ok = k is not None and k[0] >= 1 and k[1] == 3
+            detail = None if ok else {"bytes": repr(rest), "fixed part": repr(fixed), "keys, records": k}
+        ctx.check(ok, "rdop2nt: apart from its three records ([4][payload][4]: name, trailer, name) it consumes a whole number of key triplets "
+                      "of 8 + ibytes bytes, as _getkey reads them", nt.fn, detail)
     # ---- matrix
     rm, sm = _w2(ctx, "rdop2matrix"), _w2(ctx, "skipop2matrix")
     if rm is not None and sm is not None:
@@ -806,26 +972,23 @@ def r4_read_equals_skip(ctx):
                 ok = et is not None and et[0] == "ge0" and (et[1][0] - cols).is_const() and (et[1][0] - cols).const_value() >= -1
         ctx.check(ok, "_skipop4_binary: per column record 4 + reclen + 4 bytes; the column number is the first header word; stops after the sentinel "
                       "column cols + 1", sb.fn, None if ok else C.show(sb.top.items)[:300])
-    for reader in ("_rd_dense_binary", "_rd_bigmat_binary", "_rd_nonbigmat_binary"):
-        rf = ctx.src.func(OP4, "OP4." + reader)
-        w, call = _loader_with(ctx, "_loadop4_binary", reader)
-        if w is None:
-            continue
+    dense_w = None
+    for rd in _readers(ctx, "_loadop4_binary"):
+        reader, rf, w = rd["name"], rd["fn"], rd["w"]
         outer = C.loops_of_call(w, rf)
         if len(outer) != 1:
             ctx.error(f"{reader}: column loop", rf)
             continue
         col = outer[0]
-        bound = w.bound.get(id(rf), {})
-        params = [a.arg for a in rf.args.args][1:]
         # entry: what the loader read before the first column = the head of a record [4][3 words]
         head = 4 + F.sym("self._bytes_iii")
         # per column: payload + end marker + head of the next record
         body = C.tidy(col.items)
-        if reader == "_rd_dense_binary":
+        if rd["layout"] == "dense":
+            dense_w = rd
             tot = C.total(body, "B")
-            nw = _role(bound, rf, "binary", "nwords")
-            nwp = [p for p, _v in col.carry if _rat(nw) and C.fn_parts(p)[1][1].equals(nw)]
+            # the number of words of the column: third word of the 3-word head that precedes it
+            nwp = [p for p, v in col.carry if _rat(v) and (_header_field(v, True) or (None, None))[:2] == ("word", 2)]
             good, detail = tot is not None and len(nwp) == 1, None
             if good:
                 for path, (t_,) in C.leaves([tot]):
@@ -841,23 +1004,24 @@ def r4_read_equals_skip(ctx):
             inner = C.loops_in(col.items, deep=False)
             rest = [it for it in body if it[0] != "loop"]
             tot = C.total(rest, "B")
-            ok = len(inner) == 1 and tot is not None and C.same(tot, 4 + head)
+            ok = len(inner) == 1 and tot is not None and all(C.same(T.numval(C.norm(tot), tbs[b]), T.numval(C.norm(4 + head), tbs[b])) for b in (32, 64))
             ctx.check(ok, f"{reader}: per column the strings are followed by the end marker and the 4 + 3-word head of the next record", col.node,
                       None if ok else C.show(body)[:300])
-        # loop condition: same stop as the skipper (column number - 1 < cols  <=>  column number <= cols), column number = header word 0
+        # loop condition: same stop as the skipper (column number - 1 < cols  <=>  column number <= cols), column number = header word 0,
+        # cols = the number of columns a listing reports (and the skipper is given)
         t = C.fn_parts(C.norm(col.test))
         ps = _lv_in(col.test, col.frame)
         upd = [v for p, v in col.carry if len(ps) == 1 and p.equals(ps[0])]
         hf = _header_field(upd[0] + 1, anywhere=True) if len(upd) == 1 and _rat(upd[0]) else None
-        colsv = _role(bound, rf, "binary", "cols")
+        lst = _listing(w)
+        colsv = lst[0][1][1] if lst is not None and isinstance(lst[0][1], tuple) and len(lst[0][1]) == 2 else None
         ok = t is not None and t[0] == "ge0" and len(ps) == 1 and _rat(colsv) and C.same(t[1][0], colsv - (ps[0] + 1)) and hf is not None \
             and hf[0] == "word" and hf[1] == 0
         ctx.check(ok, f"{reader}: reads columns while (column number of the head just read) <= cols, the condition the skipper stops on", col.node,
                   None if ok else {"test": repr(C.norm(col.test))})
-    w, call = _loader_with(ctx, "_loadop4_binary", "_rd_dense_binary")
-    if w is not None:
+    if dense_w is not None:
         # after the reader: the rest of the sentinel record.  The reader returns the record length it read last.
-        rf = ctx.src.func(OP4, "OP4._rd_dense_binary")
+        w, rf = dense_w["w"], dense_w["fn"]
         col = C.loops_of_call(w, rf)
         post = [t for lp, t in _after_loops(w.top.items) if len(col) == 1 and lp is col[0]]
         post = post[0] if len(post) == 1 else []
@@ -871,119 +1035,139 @@ def r4_read_equals_skip(ctx):
                                              T.numval(F.fn("fin", ps[0][0]) - F.sym("self._bytes_iii") + 4, tbs[b])) for b in (32, 64))
         ctx.check(ok, "_loadop4_binary: after the sentinel head (4 + 3 words) the rest of the record and its end marker are consumed "
                       "(reclen - 3 words + 4)", w.fn, None if ok else C.show(post)[:300])
-    # ---- op4 ascii: readers vs skipper, layout by layout
-    sk = _w4(ctx, "_skipop4_ascii")
-    if sk is not None:
-        skf = sk.fn
-        sk_items = C.tidy(_strip_exit(sk.top.items))
-        sk_loops = [lp for lp in C.loops_in(sk.top.items) if not any(lp is x for o in C.loops_in(sk.top.items) for x in C.loops_in(o.items))]
-        first_line = F.fn("ln", sk.top.id, F.const(0))
-        tails = [t for lp, t in _after_loops(sk.top.items) if any(lp is x for x in sk_loops)]
-        ok = len(sk_items) >= 2 and sk_items[0][0] == "L" and C.same(sk_items[0][1], F.const(1)) and len(sk_loops) == 3 and len(tails) == 3 \
-            and all(C.total(_until_exit(t), "L") is not None and C.same(C.total(_until_exit(t), "L"), F.const(1)) for t in tails)
-        ctx.check(ok, "_skipop4_ascii: one column-header line, one of three column loops (dense, bigmat, nonbigmat), one trailing line", skf,
-                  None if ok else C.show(sk.top.items)[:300])
-        used = set()
-        matched = {}
-        for reader, label in (("_rd_dense_ascii", "dense"), ("_rd_bigmat_ascii", "bigmat"), ("_rd_nonbigmat_ascii", "nonbigmat")):
-            rf = ctx.src.func(OP4, "OP4." + reader)
-            w, call = _loader_with(ctx, "_loadop4_ascii", reader)
-            if w is None:
-                continue
-            outer = C.loops_of_call(w, rf)
-            a = _skip_args(w, skf)
-            if len(outer) != 1 or a is None:
-                ctx.error(f"{reader}: column loop / skip call", rf)
-                continue
-            col = outer[0]
-            # the loader's header values are the skipper's arguments; the line read before the loop is the skipper's first line
-            mapping = [(v, F.sym(k)) for k, v in a.items() if _rat(v) and C.as_atom(v) is not None]
-            line0 = [e[1] for e in w.events if e[0] == "line" and C.fn_parts(e[1])[1][0].equals(w.top.id)]
-            if not line0:
-                ctx.error(f"{reader}: the column-header line read by the loader", rf)
-                continue
-            mapping += [(line0[0], F.sym("LINE0")), (col.frame, F.sym("LOOP"))]
-            mine = C.map_loop(col, C.renamer(mapping))
-            hit = None
-            whys = []
-            for i, lp in enumerate(sk_loops):
-                why = []
-                theirs = C.map_loop(lp, C.renamer([(first_line, F.sym("LINE0")), (lp.frame, F.sym("LOOP"))]))
-                if C.same_loops(mine, theirs, whole_values=False, why=why):
-                    hit = i
-                    break
-                whys.append(why[:1])
-            ok = hit is not None and hit not in used
-            if hit is not None:
-                used.add(hit)
-            ctx.check(ok, f"{reader} and the {label} arm of _skipop4_ascii consume the same lines column by column and string by string "
-                          "(ceil(n / perline) data lines per block; (L + p - 1)//p == (L - 1)//p + 1), decode the same header fields and stop on the same "
-                          "column test", col.node, None if ok else {"read": C.show(mine.items)[:300], "differences": whys})
-            matched[reader] = (hit, mapping)
-            # around the loop: the loader reads one column-header line before and one trailing line after the reader
-            post = [t for lp, t in _after_loops(w.top.items) if lp is col]
-            t = C.total(_until_exit(post[0]), "L") if len(post) == 1 else None
-            ok = t is not None and C.same(t, F.const(1))
-            ctx.check(ok, f"_loadop4_ascii ({label}): one trailing line is read after the matrix, as the skipper does", w.fn, nontrivial=False)
-        r4b_layout_dispatch(ctx, sk, sk_loops, matched)
+        # the skipper is told the number of columns a listing reports
+        lst = _listing(w)
+        a = _skip_args(w, ctx.src.func(OP4, "OP4._skipop4_binary"), "self._skipop4_binary")
+        ok = lst is not None and a is not None and len(a) == 1 and isinstance(lst[0][1], tuple) and C.same(list(a.values())[0], lst[0][1][1])
+        ctx.check(ok, "_loadop4_binary: the skipper is given the number of columns of the matrix header (the one a listing reports)", w.fn)
+    # ---- op4 ascii: the loader with the reader it selects vs the skipper, case by case of the layout tests
+    r4_ascii_cases(ctx)
 
 
-def _selected(v, target):
-    """boolean form of `the selection v (a tree of phi over method symbols) is `target``"""
-    p = C.fn_parts(v) if _rat(v) else None
-    if p is not None and p[0] == "phi":
-        c, a, b = p[1]
-        bc = C.bool_form(c)
-        return ("or", [("and", [bc, _selected(a, target)]), ("and", [("not", bc), _selected(b, target)])])
-    if C.sym_name(v) is not None:
-        return ("const", C.sym_name(v) == target)
-    raise Unsupported(f"selection of a reader cannot be lowered: {v!r}")
+def _listing(w):
+    """the return of a loader that lists a matrix: (name, (rows, cols), form, type), reached exactly when `listonly`"""
+    params = {a.arg for a in w.fn.args.args}
+    if "listonly" not in params:
+        return None
+    lonly = F.sym("listonly")
+    want = ("atom", repr(lonly), lonly)
+    rets = [r for r in w.returns if isinstance(r[0], tuple) and len(r[0]) == 4 and not all(_rat(x) and C.sym_name(x) == "None" for x in r[0])]
+    lst = [r for r in rets if _guard_equiv(_loop_guard(r[1]), want) is True]
+    return lst[0] if len(lst) == 1 else None
 
 
-def r4b_layout_dispatch(ctx, sk, sk_loops, matched):
-    """the ASCII skipper takes the dense / bigmat / nonbigmat arm exactly when the loader selects the dense / bigmat / nonbigmat reader
-    (for a matrix that has at least one column to read: with none, no arm reads anything)"""
-    lf = ctx.src.func(OP4, "OP4._loadop4_ascii")
-    rf = ctx.src.func(OP4, "OP4._rd_dense_ascii")
-    call = _reader_call(lf, _nparams(rf))
-    if call is None or not ctx.src.has_func(OP4, "OP4._get_funcs"):
-        ctx.error("_loadop4_ascii: selection of the reader", lf)
-        return
-    gf = ctx.src.func(OP4, "OP4._get_funcs")
-    w = _w4(ctx, "_loadop4_ascii", tag="dispatch", indirect={id(call): rf}, no_inline={"self._skipop4_ascii", "self._skipop4_binary"},
-            extra_inline={"self._get_funcs"})
-    if w is None:
-        return
-    disp = [e for e in w.events if e[0] == "dispatch"]
-    gb = w.bound.get(id(gf), {})
-    gparams = [a.arg for a in gf.args.args][1:]
-    allz = gb.get("allzeros", gb.get(gparams[-1]) if gparams else None)
-    if len(disp) != 1 or not _rat(disp[0][1]) or not _rat(allz):
-        ctx.error("_loadop4_ascii: selection of the reader", lf, {"calls": len(disp)})
-        return
-    a = _skip_args(w, sk.fn)
-    line0 = [e[1] for e in w.events if e[0] == "line" and C.fn_parts(e[1])[1][0].equals(w.top.id)]
-    if a is None or not line0:
-        ctx.error("_loadop4_ascii: values passed to the skipper", lf)
-        return
-    ren = C.renamer([(v, F.sym(k)) for k, v in a.items() if _rat(v) and C.as_atom(v) is not None] + [(line0[0], F.sym("LINE0"))])
-    ren_s = C.renamer([(F.fn("ln", sk.top.id, F.const(0)), F.sym("LINE0"))])
-    sel, none = ren(disp[0][1]), C.bool_form(ren(allz))
-    for reader, label in (("_rd_dense_ascii", "dense"), ("_rd_bigmat_ascii", "bigmat"), ("_rd_nonbigmat_ascii", "nonbigmat")):
-        if reader not in matched or matched[reader][0] is None:
+def _test_values(items, out=None):
+    """the tests of the branches and loops of a consumption tree"""
+    out = [] if out is None else out
+    for it in items:
+        if it[0] == "if":
+            out.append(it[1])
+            _test_values(it[2], out)
+            _test_values(it[3], out)
+        elif it[0] == "loop":
+            out.append(it[1].entry_test())
+            _test_values(it[1].items, out)
+    return out
+
+
+def _free_of_loops(v):
+    return not any(d[0] == "fn" and d[1] in ("lv", "fin", "item") for d in C.walk_atoms(v))
+
+
+def _ascii_cases(ctx):
+    """the ASCII loader and the ASCII skipper walked once per truth assignment of the layout tests (row field of the first column header,
+    sign and size of the announced row count, matrix without a column): -> {atoms, cases: [(assignment, loader walk, skipper walk)], ...}"""
+    if "_c11_ascii_cases" in ctx.__dict__:
+        return ctx._c11_ascii_cases
+    res = ctx._c11_ascii_cases = {"cases": [], "ok": False}
+    skf = ctx.src.func(OP4, "OP4._skipop4_ascii")
+    la0 = _w4(ctx, "_loadop4_ascii", tag="discover", no_inline=SKIPPERS)
+    sk0 = _w4(ctx, "_skipop4_ascii", tag="S", top_name="S")
+    if la0 is None or sk0 is None:
+        return res
+    a = _skip_args(la0, skf)
+    line0 = [e[1] for e in la0.events if e[0] == "line" and C.fn_parts(e[1])[1][0].equals(la0.top.id)]
+    disp = [e for e in la0.events if e[0] == "dispatch"]
+    if a is None or not line0 or len(disp) != 1 or any(not _rat(v) for v in a.values()):
+        ctx.error("_loadop4_ascii: values passed to the skipper / column-header line / call of the selected reader", la0.fn,
+                  {"skip call": a is not None, "lines": len(line0), "selected calls": len(disp)})
+        return res
+    LINE0 = F.sym("LINE0")
+    ren_l = C.renamer([(line0[0], LINE0)])
+    # the skipper's parameters stand for what the loader passes; its first line is the loader's column-header line
+    to_arg = C.renamer([(F.sym(k), ren_l(v)) for k, v in a.items()] + [(F.fn("ln", sk0.top.id, F.const(0)), LINE0)])
+    ren_s = to_arg
+    # layout atoms: what the selection of the reader and the skipper's own branches test, outside the loops
+    conds = [ren_l(c) for path, _leaf in _phi_paths(disp[0][1]) for c, _t in path]
+    conds += [ren_s(c) for c in _test_values(sk0.top.items)]
+    atoms = {}
+    for c in conds:
+        if not _rat(c):
             continue
-        lp = sk_loops[matched[reader][0]]
         try:
-            want = _selected(sel, "self." + reader)
-            got = C.guard_form(tuple((ren_s(c), pol) for c, pol in lp.guard))
-            keys = set(C.bool_atoms(want)) | set(C.bool_atoms(got)) | set(C.bool_atoms(none))
-            ok = all(C.bool_eval(want, asg) == C.bool_eval(got, asg) for asg in C.assignments(keys) if not C.bool_eval(none, asg))
-        except Unsupported as e:
-            ctx.error(f"_skipop4_ascii / _get_funcs: condition of the {label} layout", lp.node, str(e))
+            for k, v in C.bool_atoms(C.bool_form(c)).items():
+                if _free_of_loops(v):
+                    atoms[k] = v
+        except Unsupported:
+            pass
+    if not (1 <= len(atoms) <= 6):
+        ctx.error("_loadop4_ascii / _skipop4_ascii: layout tests", skf, sorted(atoms))
+        return res
+
+    def oracle(asg, ren):
+        def force(cv):
+            try:
+                f = C.bool_form(ren(cv))
+                if not set(C.bool_atoms(f)) <= set(asg):
+                    return None
+                return C.bool_eval(f, asg)
+            except Unsupported:
+                return None
+        return force
+    for i, asg in enumerate(C.assignments(atoms.keys())):
+        wl = _w4(ctx, "_loadop4_ascii", tag=f"case{i}", no_inline=SKIPPERS, force=oracle(asg, ren_l))
+        ws = _w4(ctx, "_skipop4_ascii", tag=f"case{i}", force=oracle(asg, ren_s), top_name="S")
+        if wl is None or ws is None:
+            return res
+        res["cases"].append((asg, wl, ws))
+    res.update(ok=True, atoms=atoms, ren_l=ren_l, ren_s=ren_s, args=a, line0=line0[0], skf=skf)
+    return res
+
+
+def _read_path(w):
+    """what a loader consumes once it has decided to read the matrix: everything after its scan of the matrix headers"""
+    items = list(w.top.items)
+    for i, it in enumerate(items):
+        if it[0] == "loop":
+            return _strip_exit(items[i + 1:])
+    return None
+
+
+def _show_case(asg, atoms):
+    return ", ".join(("" if v else "not ") + T.show_cond(atoms[k]) for k, v in sorted(asg.items()))
+
+
+def r4_ascii_cases(ctx):
+    cs = _ascii_cases(ctx)
+    if not cs["ok"]:
+        return
+    n = 0
+    for asg, wl, ws in cs["cases"]:
+        mine, theirs = _read_path(wl), _strip_exit(ws.top.items)
+        if mine is None:
+            ctx.error("_loadop4_ascii: scan of the matrix headers", wl.fn)
             continue
-        ctx.check(ok, f"_skipop4_ascii takes its {label} arm exactly when the loader selects {reader} (same tests on the column header's row field and "
-                      "on the announced number of rows), for every matrix that has a column to read", lp.node,
-                  None if ok else {"skipper": [(repr(C.norm(ren_s(c))), pol) for c, pol in lp.guard], "loader": repr(C.norm(sel))[:400]})
+        mine, theirs = C.map_items(mine, cs["ren_l"]), C.map_items(theirs, cs["ren_s"])
+        why = []
+        ok = C.same_items(mine, theirs, whole_values=False, why=why)
+        reader = [e for e in wl.events if e[0] == "dispatch"]
+        rname = (C.sym_name(reader[0][1]) or "?").split(".")[-1] if len(reader) == 1 and _rat(reader[0][1]) else "?"
+        n += 1
+        ctx.check(ok, f"_loadop4_ascii (reading with {rname}) and _skipop4_ascii consume the same lines - column header, per column and per string "
+                      "ceil(n / perline) data lines ((L + p - 1)//p == (L - 1)//p + 1) on the same decoded header fields, same column test, one "
+                      f"trailing line - in the case [{_show_case(asg, cs['atoms'])}]", cs["skf"],
+                  None if ok else {"first difference": why[:1], "read": C.show(mine)[:300], "skip": C.show(theirs)[:300]})
+    ctx.check(n >= 8, f"ASCII read = skip decided for {n} cases of the layout tests", cs["skf"], nontrivial=False)
 
 
 # ------------------------------------------------------------------------------------------------------------------ R5
